@@ -46,6 +46,10 @@ TARGETS = [
     ("b_revert_to", "cstree/src/green/builder.rs", "GreenNodeBuilder", None, "revert_to"),
     ("b_start_node_at", "cstree/src/green/builder.rs", "GreenNodeBuilder", None, "start_node_at"),
     ("b_finish", "cstree/src/green/builder.rs", "GreenNodeBuilder", None, "finish"),
+    ("i_get_or_intern", "cstree/src/interning/traits.rs", "Interner", "trait", "get_or_intern"),
+    ("i_resolve", "cstree/src/interning/traits.rs", "Resolver", "trait", "resolve"),
+    ("i_fwd_get_or_intern", "cstree/src/interning/traits.rs", "I", "Interner", "get_or_intern"),
+    ("i_fwd_try_get_or_intern", "cstree/src/interning/traits.rs", "I", "Interner", "try_get_or_intern"),
 ]
 
 
@@ -140,6 +144,42 @@ def find_functions(toks):
     """yields (impl_type, trait, fn_name, params_tokens, body_tokens) for every fn inside an impl block at top level"""
     out, i = [], 0
     while toks[i][0] != "eof":
+        if toks[i] == ("id", "trait") and toks[i + 1][0] == "id" and (i == 0 or toks[i - 1] != ("p", "::")):
+            # default methods of a trait: reported as (Name, "trait", fn)
+            tname = toks[i + 1][1]
+            j, depth = i + 2, 0
+            while not (toks[j] == ("p", "{") and depth == 0):
+                if toks[j] == ("p", "<"): depth += 1
+                elif toks[j] == ("p", ">"): depth -= 1
+                elif toks[j][0] == "eof": return out
+                j += 1
+            end = skip_balanced(toks, j, "{", "}")
+            p = j + 1
+            while p < end - 1:
+                if toks[p] == ("p", "{"):
+                    p = skip_balanced(toks, p, "{", "}"); continue
+                if toks[p] == ("id", "fn") and toks[p + 1][0] == "id":
+                    name = toks[p + 1][1]
+                    q = p + 2
+                    if toks[q] == ("p", "<"):
+                        d = 0
+                        while True:
+                            if toks[q] == ("p", "<"): d += 1
+                            elif toks[q] == ("p", ">"): d -= 1
+                            q += 1
+                            if d == 0: break
+                    pe = skip_balanced(toks, q, "(", ")")
+                    params = toks[q + 1:pe - 1]
+                    b = pe
+                    while toks[b] != ("p", "{") and toks[b] != ("p", ";"):
+                        b += 1
+                    if toks[b] == ("p", ";"):
+                        p = b + 1; continue
+                    be = skip_balanced(toks, b, "{", "}")
+                    out.append((tname, "trait", name, params, toks[b:be]))
+                    p = be; continue
+                p += 1
+            i = end; continue
         if toks[i] == ("id", "impl"):
             # header up to the `{`
             j, depth = i + 1, 0
